@@ -270,10 +270,10 @@ def run(ctx: Check) -> int:
             ["tags", 1], ["tags", None, 0]]
     cases: list[dict] = [c for c in load_corpus("C28") if "ops" in c]
     n_corpus = len(cases)
-    cases += [{"ops": ops} for ops in exhaustive(six, ctx.n(3, 5), [["register"]])]
+    cases += [{"ops": ops} for ops in exhaustive(six, ctx.n(3, 4), [["register"]])]
     cases += [{"ops": ops} for ops in exhaustive(eight, ctx.n(3, 4), [["register"], ["start", 1]])]   # inside a run
     cases += [{"ops": ops} for ops in exhaustive(six, ctx.n(2, 3), [])]             # histories that start unregistered
-    cases += [{"ops": ops} for ops in exhaustive(nine, ctx.n(2, 4), [["register"], ["start", 1]])]
+    cases += [{"ops": ops} for ops in exhaustive(nine, ctx.n(2, 3), [["register"], ["start", 1]])]
     if ctx.tier == "thorough":                          # the run starts while the engine still reports Stopped
         cases += [{"ops": ops} for ops in exhaustive(eight, 3, [["register"], ["tags", None, 0], ["start", 1]])]
     n_exh = len(cases) - n_corpus
@@ -292,9 +292,9 @@ def run(ctx: Check) -> int:
                               "engine_protocol_with_reconnects": sum(1 for c in cases if c.get("protocol")),
                               "random_malformed": ctx.n(60, 2500)}
     ctx.rule = ("histories over {register(+uod info), disconnect, graceful restart, crash, start r, stop r, tags(run|none, t, "
-                "optional System State Stopped/Running/Paused)}: all histories of length 3/5 after a registration (7 "
+                "optional System State Stopped/Running/Paused)}: all histories of length 3/4 after a registration (7 "
                 "events), of length 3/4 after `register, start 1` (8/9 events: tags without state, reporting Stopped, "
-                "thorough also reporting Running), all of length 2/3 from the empty aggregator, all of length 2/4 over two run ids "
+                "thorough also reporting Running), all of length 2/3 from the empty aggregator, all of length 2/3 over two run ids "
                 "after `register, start 1`; engine-protocol histories where the reported System State lags (still "
                 "Stopped after RunStarted) or leads (Stopped before RunStopped) the run messages; engine-protocol histories "
                 "(1-3 runs, increasing tick times, refused messages re-sent after re-registration, duplicate "
